@@ -13,7 +13,7 @@ using namespace sim;
 enum { W_INSERT = 0, W_FOI, W_ERASE, W_FIND, W_VERIFY, W_ITER, W_GRACE, W_ANNOUNCE, R_FIND, OP_N };
 static const char *op_names[OP_N] = {"insert", "find_or_insert", "erase", "wfind", "verify_all", "iterate", "grace", "announce", "find"};
 
-static int P_case1, P_case2, P_case3, P_split_top, P_find_during_split, P_reader_found, P_reader_null, P_mustfind_checked, P_reinserts, P_erased_never_destroyed, P_skipped, P_grace_ok, P_grace_fail, P_iter, P_foi_present, P_stale_found_erased, P_lifetime_anomaly, P_plain, P_val_dtor_in_run, P_ptrmode;
+static int P_case1, P_case2, P_case3, P_split_top, P_find_during_split, P_reader_found, P_reader_null, P_mustfind_checked, P_reinserts, P_erased_never_destroyed, P_skipped, P_grace_ok, P_grace_fail, P_iter, P_foi_present, P_stale_found_erased, P_lifetime_anomaly, P_plain, P_val_dtor_in_run, P_ptrmode, P_alignmode;
 
 struct Ins { uint64_t key, seq; char *addr; uint64_t inv, ret; uint32_t ret_wclk; uint64_t erase_inv, erase_ret; };
 struct Blk { char *p; size_t n; bool freed; };
@@ -35,7 +35,8 @@ struct RadixEngine : Engine {
 	VC gp_chan, ann_chan, rchan[MAXT];
 	bool destroyed = false, plain = false; int vmode = 0; uint64_t nfinds = 0;
 	std::set<const char *> recs; // mode 2: the records the user stored pointers to
-	size_t vsize() const { return vmode == 2 ? sizeof(RVal *) : sizeof(RVal); }
+	size_t vsize() const { return sut_value_size(vmode); }
+	void check_aligned(const char *cls, const char *what, const char *p) { size_t al = sut_value_align(vmode); if ((uintptr_t)p % al) violation(cls, "%s: returned address +0x%llx is not aligned to %zu, the alignment of the value type", what, (unsigned long long)off(p), al); }
 	// the value as the user sees it through the pointer find() returned; false: (mode 2) the slot does not hold a pointer the user stored
 	bool load_val(const char *p, RVal &v) {
 		if (vmode != 2) { user_read(p, sizeof v); memcpy(&v, p, sizeof v); return true; }
@@ -56,7 +57,7 @@ struct RadixEngine : Engine {
 		P_reinserts = probe_id("reinsert_after_grace"); P_erased_never_destroyed = probe_id("erased_value_never_destroyed"); P_skipped = probe_id("ops_skipped_precondition");
 		P_grace_ok = probe_id("grace_period_completed"); P_grace_fail = probe_id("grace_period_gave_up"); P_iter = probe_id("iterations"); P_foi_present = probe_id("find_or_insert_on_present_key");
 		P_stale_found_erased = probe_id("relaxed_reader_found_erased_value"); P_lifetime_anomaly = probe_id("node_lifetime_anomaly(C16_radix_clause:not_claimed,not_reported)");
-		P_plain = probe_id("runs_with_argument-less_insert_of_a_plain_value_type"); P_val_dtor_in_run = probe_id("value_destructor_ran_while_the_tree_was_in_use"); P_ptrmode = probe_id("runs_with_a_raw_pointer_value_type");
+		P_plain = probe_id("runs_with_argument-less_insert_of_a_plain_value_type"); P_val_dtor_in_run = probe_id("value_destructor_ran_while_the_tree_was_in_use"); P_ptrmode = probe_id("runs_with_a_raw_pointer_value_type"); P_alignmode = probe_id("runs_with_an_over-aligned_value_type");
 	}
 	const char *name() override { return "simradix"; }
 	const char *op_name(int k) override { return k >= 0 && k < OP_N ? op_names[k] : "?"; }
@@ -128,7 +129,7 @@ struct RadixEngine : Engine {
 			for (int i = 0; i < n; i++) { Op o; o.task = t; o.id = i; o.kind = R_FIND; o.a[0] = key(); o.a[1] = rng.chance(1, 5); p.ops.push_back(o); }
 		}
 		if (c09 && rng.chance(1, 4)) p.knobs["plain"] = 1; // plain value type, inserted without constructor arguments
-		{ Rng vr; vr.seed(p.seed ^ 0x50545256ull); if (!p.knobs.count("plain") && vr.chance(1, 6)) p.knobs["vmode"] = 2; } // value type is a raw pointer
+		{ Rng vr; vr.seed(p.seed ^ 0x50545256ull); if (!p.knobs.count("plain")) { if (vr.chance(1, 6)) p.knobs["vmode"] = 2; else if (vr.chance(1, 8)) p.knobs["vmode"] = 3; } } // value type is a raw pointer / over-aligned
 		pick_strategy(rng, p, !c09);
 	}
 
@@ -140,13 +141,13 @@ struct RadixEngine : Engine {
 		for (int t = 0; t < MAXT; t++) { inflight[t] = false; opcount[t] = 0; rdone[t] = false; rchan[t].clear(); }
 		gp_chan.clear(); ann_chan.clear();
 		plain = p.knob("plain", 0) != 0 && p.ntasks == 1; alive.clear(); recs.clear(); nfinds = 0; if (plain) probe(P_plain);
-		vmode = plain ? 1 : (p.knob("vmode", 0) == 2 ? 2 : 0); if (vmode == 2) probe(P_ptrmode);
+		vmode = plain ? 1 : (p.knob("vmode", 0) == 2 ? 2 : p.knob("vmode", 0) == 3 ? 3 : 0); if (vmode == 2) probe(P_ptrmode); if (vmode == 3) probe(P_alignmode);
 		tree = obj_alloc(sut_tree_size(), 64);
 		sut_tree_construct(tree, vmode);
 	}
 
 	void *do_alloc(size_t n) {
-		char *p = (char *)obj_alloc(n, 16);
+		char *p = (char *)obj_alloc(n, std::max<size_t>(16, sut_value_align(vmode))); // (the Allocator concept has no alignment argument: an allocator for over-aligned values returns suitably aligned blocks)
 		blks.push_back({p, n, false});
 		allocs_in_op++;
 		return p;
@@ -164,6 +165,7 @@ struct RadixEngine : Engine {
 
 	void check_value(const char *what, char *p, uint64_t k, uint64_t seq) {
 		if (!in_arena(p) || !in_node(p)) violation("map_wrong_result", "%s: returned pointer %p is not inside a node the tree allocated", what, p);
+		check_aligned("map_wrong_result", what, p);
 		if (vmode == 0 && !alive.count(p)) violation("map_wrong_result", "%s(key 0x%llx): the value object at +0x%llx has been destroyed (or was never constructed)", what, (unsigned long long)k, (unsigned long long)off(p));
 		RVal v;
 		if (!load_val(p, v)) violation("map_wrong_result", "%s(key 0x%llx): the pointer value at +0x%llx is %p, which is not a pointer stored in the tree", what, (unsigned long long)k, (unsigned long long)off(p), (void *)(uintptr_t)v.key);
@@ -212,8 +214,8 @@ struct RadixEngine : Engine {
 		if (plain) {
 			// inserted without constructor arguments: a NEW value-initialised object, whatever the slot held before; the user fills it in
 			if (!in_arena(p) || !in_node(p)) violation("map_wrong_result", "insert: returned pointer %p is not inside a node the tree allocated", p);
-			RVal z; user_read(p, sizeof z); memcpy(&z, p, sizeof z);
-			if (z.key || z.seq || z.check) violation("map_wrong_result", "insert(0x%llx) without arguments returned a value holding {0x%llx, %llu, 0x%llx} instead of a value-initialised one (the value most recently inserted is a new object)", (unsigned long long)k, (unsigned long long)z.key, (unsigned long long)z.seq, (unsigned long long)z.check);
+			RVal z; char got[64], want[64]; size_t vs = vsize(); user_read(p, vs); memcpy(got, p, vs); memcpy(&z, p, sizeof z); sut_plain_init(want);
+			if (memcmp(got, want, vs)) violation("map_wrong_result", "insert(0x%llx) without arguments returned a value holding {0x%llx, %llu, 0x%llx, ...} whose bytes differ from a value-initialised object of the type (the value most recently inserted is a new object; a null pointer-to-member is not all-zero bits)", (unsigned long long)k, (unsigned long long)z.key, (unsigned long long)z.seq, (unsigned long long)z.check);
 			RVal v{k, ins[idx].seq, ~k ^ ins[idx].seq}; user_write(p, sizeof v); memcpy(p, &v, sizeof v);
 		}
 		check_value("insert", p, k, ins[idx].seq);
@@ -257,6 +259,7 @@ struct RadixEngine : Engine {
 		if (p) {
 			probe(P_reader_found);
 			if (!in_arena(p) || !in_node(p)) violation("reader_bad_value", "find(0x%llx) returned %p which is not inside a node", (unsigned long long)k, p);
+			check_aligned("reader_bad_value", "find", p);
 			if (vmode == 0 && !alive.count(p)) violation("reader_destroyed_value", "reader %d: find(0x%llx) returned +0x%llx, a value object whose destructor has already run: not a fully initialised value", me, (unsigned long long)k, (unsigned long long)off(p));
 			RVal v;
 			if (!load_val(p, v)) violation("reader_bad_value", "reader %d: find(0x%llx) returned +0x%llx, which holds the pointer %p: not a value that was stored under the key", me, (unsigned long long)k, (unsigned long long)off(p), (void *)(uintptr_t)v.key);
@@ -361,4 +364,5 @@ extern "C" void *radix_alloc(size_t n) { return G->do_alloc(n); }
 extern "C" void radix_free(void *p, size_t n) { G->do_free(p, n); }
 extern "C" void radix_val_ctor(void *p) { G->val_ctor(p); }
 extern "C" void radix_val_dtor(void *p) { G->val_dtor(p); }
+extern "C" void radix_arg_moved(void) { violation("map_wrong_result", "insert/find_or_insert moved from an argument the caller passed as an lvalue (arguments must be forwarded: the caller's object is gutted, and what it inserts next is not what it meant to)"); }
 Engine *sim::make_engine() { return new RadixEngine(); }
